@@ -89,6 +89,15 @@ def main(quiet=False):
         if from_us(_lv(_m(ctx), s2._e)) != t0 + datetime.timedelta(
                 seconds=60, milliseconds=-1):
             bad.append(("dt add",))
+        # whole seconds since 1970 through utctimetuple() + calendar.timegm()
+        import calendar
+        for delta_us in (0, 1, 999999, 1000000, -1, 86399999999):
+            n += 1
+            sd = s + datetime.timedelta(microseconds=delta_us)
+            rd = t0 + datetime.timedelta(microseconds=delta_us)
+            got = calendar.timegm(sd.utctimetuple())
+            if _m(ctx).eval(got.e, model_completion=True).as_long() != calendar.timegm(rd.utctimetuple()):
+                bad.append(("timegm", delta_us))
         # time-zone labels: astimezone keeps the instant, replace(tzinfo=) keeps the wall-clock reading
         tzs = [datetime.timezone.utc] + [datetime.timezone(datetime.timedelta(hours=h)) for h in (2, -3, 9)]
         for tz1 in tzs:
